@@ -35,7 +35,13 @@ def host_of(result):
     """host of a URL-level result string (scheme-less results are read as '//' + result)"""
     s = refurl.split(result)
     if s["authority"] is None:
-        s = refurl.split("//" + result)
+        result = "//" + result
+        s = refurl.split(result)
+    try:
+        std_urlsplit(result).hostname
+    except ValueError:
+        # unbalanced brackets in the authority: the result is the unparseable input passed through, it has no host
+        return None
     return refurl.split_authority(s["authority"] or "")[2] or None
 
 
